@@ -15,7 +15,7 @@ RULE = ("a case is an argparse PROGRAM (constructor keywords prefix_chars in {-,
         "argument_default / exit_on_error, then an ordered declaration list over: positionals with nargs None,?,*,+,2; "
         "options with store / store_true / store_false / store_const / count / append / append_const / extend, type=int, "
         "choices, defaults, required; argument groups; mutually exclusive groups (required or not); set_defaults on "
-        "declared and undeclared dests; parents= (one or two stdlib or simple_parsing parents, with set_defaults, with options that are proper prefixes of dataclass options)), a dataclass FOREST registered with "
+        "declared and undeclared dests; parents= (one or two stdlib or simple_parsing parents with their own argument groups, required / optional mutually exclusive groups (also nested in a group), set_defaults before and after the add_argument of the same dest or for a dest declared by the other parent, options that are proper prefixes of dataclass options)), a dataclass FOREST registered with "
         "add_arguments next to it (int/str/float/bool/List/Tuple/Optional leaves, required leaves, nested and Optional "
         "nested classes, one subgroups field, positional fields; names disjoint from the user's), an API "
         "(parse_args | parse_known_args) and an ARGV interleaving valid and invalid tokens of both worlds (unknown "
@@ -29,7 +29,7 @@ ASSUMPTIONS = ["argparse.ArgumentParser (CPython 3.12) is the reference: its beh
                "dataclass constructors of generated classes do not raise"]
 TRUSTED = ["stdlib argparse (it is the oracle of this property)"]
 EXHAUSTIVE = {"quick": False, "thorough": False}
-THOROUGH_ROUNDS = 3   # thorough tier: this many generator passes with derived PRNG states (vcheck)
+THOROUGH_ROUNDS = 2   # thorough tier: this many generator passes with derived PRNG states (vcheck)
 MANIFEST = {
     "text": ("Proof (frame theorem, full for the post-processing; engine equivalence differential). Lean theorems over the "
              "model of parse_known_args/_postprocessing, for EVERY argparse engine and EVERY algebra of Python values: the "
@@ -657,6 +657,21 @@ def tags(case, obs):
             t.append("action:" + str(kw.get("action", "store")))
         else:
             t.append("decl:" + d["k"])
+    for ps in c.get("parents", []):
+        kinds = [d["k"] for d in ps["decls"] if d["k"] in ("group", "mutex")]
+        t.append("parent:" + ("sp" if ps.get("sp") else "stdlib"))
+        seen = set()
+        for d in ps["decls"]:
+            if d["k"] == "mutex":
+                t.append("parent-mutex:" + ("required" if d.get("required") else "optional") + (":in-group" if d.get("in") is not None else ""))
+            elif d["k"] == "group":
+                t.append("parent-group")
+            elif d["k"] == "set_defaults":
+                for k in d["kv"]:
+                    t.append("parent-set_defaults:" + ("after-add" if k in seen else "before-or-foreign"))
+            elif d["k"] == "arg":
+                seen.add(decl_dest(d))
+        del kinds
     for k in ("prefix_chars", "conflict_handler", "allow_abbrev", "argument_default", "exit_on_error"):
         if k in c["parser"]:
             t.append(f"ctor:{k}")
@@ -1028,13 +1043,16 @@ def sp_segments(rng, c):
 
 def gen_argv(rng, c, valid_only=False):
     segs = []
-    args = [d for d in c["decls"] if d["k"] == "arg"]
-    for ps in c.get("parents", []):
-        args += [d for d in ps["decls"] if d["k"] == "arg"]
-    kinds = [d["k"] for d in c["decls"] if d["k"] in ("group", "mutex")]
-    for d in args:
+    args = []
+    for prog, skip in [(c["decls"], 0.6)] + [(ps["decls"], 0.25) for ps in c.get("parents", [])]:
+        kinds = [d["k"] for d in prog if d["k"] in ("group", "mutex")]
+        for d in prog:
+            if d["k"] == "arg":
+                in_mutex = d.get("in") is not None and d["in"] < len(kinds) and kinds[d["in"]] == "mutex"
+                args.append((d, skip if in_mutex else 0.0))
+    for d, skip in args:
         pos = d["flags"][0][0] not in "-+"
-        if d.get("in") is not None and d["in"] < len(kinds) and kinds[d["in"]] == "mutex" and rng.random() < 0.6:
+        if rng.random() < skip:
             continue
         req = d.get("kw", {}).get("required") or (pos and d.get("kw", {}).get("nargs") in (None, "+", 2))
         p = 0.9 if req else 0.45
@@ -1080,6 +1098,53 @@ def gen_argv(rng, c, valid_only=False):
     return [t for s in segs for t in s]
 
 
+def gen_parent_decls(rng, pool, pi, prev_dests):
+    """the program of one parent: plain options, an argument group, a (required) mutually exclusive group — directly
+    or nested in an argument group —, and set_defaults placed BEFORE or AFTER the add_argument of the same dest, or
+    naming a dest that only an earlier parent declares"""
+    decls, ncont = [], 0
+    shape = rng.choice(["plain", "plain", "mutex", "mutex", "group-mutex", "group-mutex", "group"])
+    g = None
+    if shape in ("group", "group-mutex"):
+        decls.append({"k": "group", "title": f"PG{pi}", "kw": {}})
+        g, ncont = ncont, ncont + 1
+    if shape in ("mutex", "group-mutex"):
+        m = {"k": "mutex", "required": rng.random() < 0.4}
+        if g is not None:
+            m["in"] = g
+        decls.append(m)
+        mi, ncont = ncont, ncont + 1
+        for _ in range(rng.randint(2, 3)):
+            a = gen_arg(rng, pool.pop(), mutex=True)
+            a["kw"].pop("dest", None)
+            a["in"] = mi
+            decls.append(a)
+    for _ in range(rng.randint(0 if shape != "plain" else 1, 2)):
+        a = gen_arg(rng, pool.pop())
+        a["kw"].pop("dest", None)
+        if g is not None and rng.random() < 0.6:
+            a["in"] = g
+        decls.append(a)
+    r = rng.random()
+    if r < 0.35:
+        # set_defaults(x=A) first, then add_argument("--x", default=B): argparse keeps B for the action
+        flags = pool.pop()
+        decls.append({"k": "set_defaults", "kv": {decl_dest({"flags": flags}): rng.choice([I(5), S("pd")])}})
+        kw = rng.choice([{"default": S("own")}, {"default": I(6)}, {"default": S("8"), "type": "int"}, {}])
+        decls.append({"k": "arg", "flags": flags, "kw": dict(kw)})
+    elif r < 0.6:
+        own = [decl_dest(d) for d in decls if d["k"] == "arg" and d["kw"].get("action", "store") in
+               ("store", "store_const", "store_true", "store_false")]
+        key = rng.choice(own + ["pextra", "pextra2"])
+        decls.insert(rng.randint(0, len(decls)) if rng.random() < 0.5 else len(decls),
+                     {"k": "set_defaults", "kv": {key: rng.choice([I(5), S("pd"), {"t": "none"}])}})
+        decls = fix_order(decls)
+    if prev_dests and rng.random() < 0.5:
+        # only a default for an option that an EARLIER parent declares
+        decls.append({"k": "set_defaults", "kv": {rng.choice(prev_dests): rng.choice([I(7), S("p2")])}})
+    return decls
+
+
 def gen_case(rng, op, kind="normal"):
     classes, regs = gen_forest(rng)
     pc, decls = gen_program(rng)
@@ -1104,18 +1169,14 @@ def gen_case(rng, op, kind="normal"):
     if kind == "parents" or (kind == "normal" and rng.random() < 0.08):
         # stdlib or simple-parsing parents; their options may be proper prefixes of dataclass options (an exact match
         # beats the abbreviation), they may carry set_defaults (for their own, the child's or undeclared dests)
-        pool = [["--pv"], ["--pw"], ["-P", "--pflag"], ["--ep"], ["--wid"], ["--na"], ["--dep"], ["--di"], ["--use"]]
+        pool = [["--pv"], ["--pw"], ["-P", "--pflag"], ["--ep"], ["--wid"], ["--na"], ["--dep"], ["--di"], ["--use"],
+                ["--json"], ["--yaml"], ["--px"], ["-Y", "--py"], ["--pa"], ["--pb"], ["--pc"], ["--pd"]]
         rng.shuffle(pool)
         parents = []
-        for _ in range(rng.choice([1, 1, 1, 2])):
-            pds = [gen_arg(rng, pool.pop()) for _ in range(rng.randint(1, 2))]
-            for d in pds:
-                d["kw"].pop("dest", None)
-            if rng.random() < 0.4:
-                own = [decl_dest(d) for d in pds if d["kw"].get("action", "store") in ("store", "store_const", "store_true", "store_false")]
-                key = rng.choice(own + ["pextra", "pextra2"])
-                pds.insert(rng.randint(0, len(pds)), {"k": "set_defaults", "kv": {key: rng.choice([I(5), S("pd"), {"t": "none"}])}})
-            parents.append({"sp": rng.random() < 0.5, "decls": pds})
+        for pi in range(rng.choice([1, 1, 2, 2])):
+            prev = [decl_dest(d) for ps in parents for d in ps["decls"] if d["k"] == "arg"
+                    and d["kw"].get("action", "store") == "store" and d["kw"].get("nargs") is None]
+            parents.append({"sp": rng.random() < 0.5, "decls": gen_parent_decls(rng, pool, pi, prev)})
         c["parents"] = parents
     if kind == "collision":
         c["disjoint"] = False
@@ -1166,7 +1227,7 @@ def gen(rng, tier):
         kind = "normal"
         if r < 0.05:
             kind = "collision"
-        elif r < 0.09:
+        elif r < 0.14:
             kind = "parents"
         yield gen_case(rng, "post.parse", kind)
     for i in range(n // 3):
